@@ -67,6 +67,22 @@ def make_jobs(rng, tier, n_gen=10, n_bench=3, n_traj=5):
                      "steps": rng.choice([60, 150, 300]),
                      "reset_seed": rng.choice([None, rng.randint(0, 10 ** 6)])})
         jid += 1
+        if spec["kind"] == "yaml" and not any(
+                j.get("twin_of") is not None for j in jobs):
+            # the same document with its name lists in another order: the
+            # same names, another vector layout order
+            import yaml
+            try:
+                d = yaml.safe_load(spec["text"])
+                for key in ("os", "services", "processes"):
+                    d[key] = list(reversed(d[key]))
+                t2 = docgen.emit(d)
+                if t2 != spec["text"]:
+                    jobs.append(dict(jobs[-1], id=jid, twin_of=jid - 1,
+                                     spec={"kind": "yaml", "text": t2}))
+                    jid += 1
+            except Exception:
+                pass
     return jobs
 
 
